@@ -102,6 +102,20 @@ class _Renamer(ast.NodeTransformer):
         self.mapping = saved
         return node
 
+    def _imp(self, node):
+        # `import a.b` binds `a`; `from m import x` binds `x`: when that local name is renamed, bind the new one
+        for al in node.names:
+            bound = (al.asname or al.name).split(".")[0]
+            if bound in self.mapping and (al.asname or "." not in al.name):
+                al.asname = self.mapping[bound]
+        return node
+
+    def visit_Import(self, node: ast.Import) -> ast.AST:
+        return self._imp(node)
+
+    def visit_ImportFrom(self, node: ast.ImportFrom) -> ast.AST:
+        return self._imp(node)
+
     def visit_ExceptHandler(self, node: ast.ExceptHandler) -> ast.AST:
         if node.name and node.name in self.mapping:
             node.name = self.mapping[node.name]
@@ -141,6 +155,11 @@ class Inliner:
         if _is_generator(callee.node):
             return None
         if sum(1 for _ in stmts_no_nested(callee.node.body)) > MAX_STMTS:
+            return None
+        # names the helper reads from an outer scope (module level, enclosing function) must mean the same in the caller:
+        # a local of the caller with that name (e.g. a function-level `import sys`) would capture them
+        free = {n.id for n in ast.walk(callee.node) if isinstance(n, ast.Name) and isinstance(n.ctx, ast.Load)} - _local_names(callee.node)
+        if free & _local_names(fi.node):
             return None
         f = call.func
         nested_direct = callee.parent is not None and isinstance(f, ast.Name) and (callee.parent is fi or callee.parent is fi.parent)
